@@ -209,6 +209,29 @@ Theorem C06_short_recording_fails : forall c, 0 <= c_T c -> c_T c * 2 < c_NB c -
 Proof. exact short_recording_fails. Qed.
 Print Assumptions C06_short_recording_fails.
 
+(* 15. What already exists at output_file.  Whatever file (any length pre_len >= 0: absent, shorter,
+   equal, longer, stale) is found there, a run with append=False (the file is truncated, offset 0)
+   leaves exactly (ns + ns2add) rows: every byte is this run's sequential batch-wise content, no
+   byte of the old file survives and nothing lies beyond.  A run with append=True (offset =
+   pre_len) keeps the pre_len old bytes untouched and ends at pre_len + (ns + ns2add) rows. *)
+Theorem C06_preexisting_output : forall c sched pre, dom c -> 0 <= pre -> Permutation sched (all_ops c) ->
+  (c_offset c = snd (start_state false pre) ->
+     (forall b, final_byte c (fst (start_state false pre)) sched b = option_map New (expected c b)) /\
+     (forall b, final_byte c (fst (start_state false pre)) sched b <> None <->
+                0 <= b < (c_ns c + c_ns2add c) * rowbytes c) /\
+     final_length c (fst (start_state false pre)) = (c_ns c + c_ns2add c) * rowbytes c) /\
+  (c_offset c = snd (start_state true pre) ->
+     (forall b, 0 <= b < pre -> final_byte c (fst (start_state true pre)) sched b = Some (Old b)) /\
+     (forall b, final_byte c (fst (start_state true pre)) sched b <> None <->
+                0 <= b < pre + (c_ns c + c_ns2add c) * rowbytes c) /\
+     final_length c (fst (start_state true pre)) = pre + (c_ns c + c_ns2add c) * rowbytes c).
+Proof.
+  intros c sched pre D Hpre Hp. split; intros Hoff.
+  - exact (fresh_run_extent c sched pre D Hpre Hoff Hp).
+  - exact (append_run_extent c sched pre D Hpre Hoff Hp).
+Qed.
+Print Assumptions C06_preexisting_output.
+
 (* The hypotheses are satisfiable on a concrete, non-trivial call: 12000 samples, batch 3000
    (stride 952, 11 batches), 3 workers, 5 padding samples, 65 int16 columns. *)
 Definition ex_cfg := mkCfg 1024 12000 3000 3 5 0 65 2 64 0 0.
@@ -248,3 +271,10 @@ Proof. vm_compute. repeat split; reflexivity. Qed.
 (* hypotheses of 14: 1000 samples *)
 Example ex_short : worker (mkCfg 1024 1000 4096 2 0 0 9 2 8 0 0) 0 = WShort 0.
 Proof. vm_compute. reflexivity. Qed.
+(* hypotheses of 15: a stale 3 MB file at output_file, fresh run (offset 0) and append run (offset = its size) *)
+Example ex_preexisting :
+  c_offset ex_cfg = snd (start_state false 3000000) /\
+  c_offset (with_offset ex_cfg 3000000) = snd (start_state true 3000000) /\
+  final_length ex_cfg (fst (start_state false 3000000)) = 1560650 /\
+  final_length (with_offset ex_cfg 3000000) (fst (start_state true 3000000)) = 4560650.
+Proof. vm_compute. repeat split; reflexivity. Qed.
